@@ -508,3 +508,47 @@ func (w *World) ResetQueue(keys ...string) {
 	}
 	w.Q.Ops = nil
 }
+
+// ---------------------------------------------------------------------------
+// live mode: real informers (list+watch over simapi), real queue, real workers
+
+// NewLive builds a world whose informers and workers really run.
+func NewLive(srv *simapi.Server) *World {
+	w := &World{Srv: srv, pending: map[simapi.Res][]pendingEv{}, Live: true}
+	srv.KeepHistory = true
+	w.build()
+	return w
+}
+
+// Start starts informers and the controller with the given number of workers.
+func (w *World) Start(workers int, stop <-chan struct{}) {
+	w.Kube.Start(stop)
+	w.PCF.Start(stop)
+	go w.Ctl.Run(workers, stop)
+}
+
+// CachesInSync reports whether every informer cache holds exactly the API's objects at their
+// current resourceVersions.
+func (w *World) CachesInSync() bool {
+	snap := w.Srv.Snap()
+	for _, r := range cachedRes {
+		idx := w.inf[r].GetIndexer()
+		keys := idx.ListKeys()
+		if len(keys) != len(snap[r]) {
+			return false
+		}
+		for _, k := range keys {
+			o, ok, _ := idx.GetByKey(k)
+			so := snap[r][k]
+			if !ok || so == nil {
+				return false
+			}
+			a, _ := meta.Accessor(o)
+			b, _ := meta.Accessor(so)
+			if a.GetResourceVersion() != b.GetResourceVersion() {
+				return false
+			}
+		}
+	}
+	return true
+}
